@@ -185,7 +185,8 @@ fn main() -> Result<()> {
                 Some((&FifoEntry::WrapAroundMarker(marker), timestamps)) => {
                     (Some(marker), timestamps)
                 }
-                Some((_, timestamps)) => (None, timestamps),
+                // No marker closes the last chunk: all of it are timestamps.
+                Some(_) => (None, chunk),
                 _ => unreachable!(),
             };
             for &tsc in timestamps {
